@@ -353,6 +353,14 @@ class RelabelInterp(ResultInterp):
             return Tagged(name.split(":")[-1].replace(".__init__", ""), args, kwargs)
         if name in ("max", "min"):
             return Unknown(name)
+        if name in ("numpy.promote_types", "numpy.result_type") and len(args) == 2 and not kwargs:
+            a_, b_ = dtype_of(args[0]), dtype_of(args[1])
+            order = ["bool", "u8", "u16", "u32", "u64"]
+            if a_ in order and b_ in order:
+                return dt_sym(order[max(order.index(a_), order.index(b_))])  # the wider of two unsigned types
+            return Unknown("promotion of dtypes other than unsigned ones")
+        if name == "numpy.dtype" and len(args) == 1 and not kwargs and dtype_of(args[0]):
+            return dt_sym(dtype_of(args[0]))
         if name == "numpy.iinfo" and args:
             dt = dtype_of(args[0])
             if dt:
